@@ -138,17 +138,59 @@ Proof.
     destruct Hq as [-> ->]. cbn [it_scan it_walk fst snd]. split; [discriminate|]. intros _. split; reflexivity.
 Qed.
 
-Lemma drain_no_raise fuel : forall m it acc,
-  Blank m -> Quiet m it ->
-  snd (fst (it_drain fuel m it acc)) <> 2%N /\ Quiet m (snd (it_drain fuel m it acc)).
+(* the rest of a loop run to its end: what is yielded was a candidate and passed the test *)
+Lemma scan_all_spec m c chk l :
+  (forall t, In t (fst (scan_all m c chk l)) -> In t l /\ (chk = true -> has_ctx_live m t c = Some true))
+  /\ ((forall t, has_ctx_live m t c <> None) -> snd (scan_all m c chk l) = false).
 Proof.
-  induction fuel as [|f IH]; intros m it acc HB HQ; cbn [it_drain].
-  - split; [discriminate|exact HQ].
-  - destruct (next_no_raise m it HB HQ) as [H1 H2].
-    destruct (it_next m it) as [[t| |] it']; cbn [fst snd] in *.
-    + now apply IH.
-    + split; [discriminate|exact H2].
-    + congruence.
+  induction l as [|u r [IH1 IH2]]; cbn [scan_all]; [split; [simpl; tauto|reflexivity]|].
+  destruct chk.
+  - destruct (has_ctx_live m u c) as [[|]|] eqn:E.
+    + destruct (scan_all m c true r) as [ys e]. cbn [fst snd] in *. split; auto.
+      intros t [Ht|Ht]; [subst t; split; [simpl; auto|intros _; exact E]|]. destruct (IH1 t Ht). split; [simpl; auto|auto].
+    + split; auto. intros t Ht. destruct (IH1 t Ht). split; [simpl; auto|auto].
+    + split; [simpl; tauto|]. intros H. exfalso. exact (H u E).
+  - destruct (scan_all m c false r) as [ys e]. cbn [fst snd] in *. split; auto.
+    intros t [Ht|Ht]; [subst t; split; [simpl; auto|discriminate]|]. destruct (IH1 t Ht). split; [simpl; auto|auto].
+Qed.
+
+Lemma walk_all_spec m c k chk outer :
+  (forall t, In t (fst (walk_all m c k chk outer)) ->
+             exists x, In t (it_expand m k x) /\ (chk = true -> has_ctx_live m t c = Some true))
+  /\ ((forall t, has_ctx_live m t c <> None) -> snd (walk_all m c k chk outer) = false).
+Proof.
+  induction outer as [|x r [IH1 IH2]]; cbn [walk_all]; [split; [simpl; tauto|reflexivity]|].
+  destruct (scan_all_spec m c chk (it_expand m k x)) as [S1 S2].
+  destruct (scan_all m c chk (it_expand m k x)) as [ys e]. cbn [fst snd] in *.
+  destruct e.
+  - split; [|intros H; specialize (S2 H); discriminate]. intros t Ht. exists x. now apply S1.
+  - destruct (walk_all m c k chk r) as [zs e']. cbn [fst snd] in *. split; auto.
+    intros t Ht. apply in_app_iff in Ht. destruct Ht as [Ht|Ht]; [exists x; now apply S1|now apply IH1].
+Qed.
+
+Lemma live_total_def m c : m_def m <> None -> forall t, has_ctx_live m t c <> None.
+Proof.
+  intros Hd t. unfold has_ctx_live. destruct (pd_get triple_eqb t (m_tc m)); [discriminate|].
+  destruct (mem_leaf m t); [|discriminate]. destruct (m_def m); [discriminate|congruence].
+Qed.
+
+Lemma drain_no_raise m it :
+  Blank m -> Quiet m it ->
+  snd (fst (it_drain m it)) <> 2%N /\ Quiet m (snd (it_drain m it)).
+Proof.
+  intros HB HQ. unfold it_drain. destruct (it_done it); [split; [discriminate|exact HQ]|].
+  set (it1 := if it_started it then it else it_start m it).
+  assert (HQ' : forall o i, Quiet m (it_set it1 true o i) \/ True) by auto.
+  destruct (m_def m) as [d|] eqn:Ed.
+  - assert (Hd : m_def m <> None) by congruence.
+    pose proof (proj2 (scan_all_spec m (it_cid it1) (it_check it1) (it_inner it1)) (live_total_def m _ Hd)) as E1.
+    pose proof (proj2 (walk_all_spec m (it_cid it1) (it_kind it1) (it_check it1) (it_outer it1)) (live_total_def m _ Hd)) as E2.
+    destruct (scan_all m (it_cid it1) (it_check it1) (it_inner it1)) as [ys e]. cbn [snd] in E1. subst e.
+    destruct (walk_all m (it_cid it1) (it_kind it1) (it_check it1) (it_outer it1)) as [zs e']. cbn [snd] in E2. subst e'.
+    cbn [fst snd]. split; [discriminate|intros H; congruence].
+  - assert (Hq : it_inner it1 = [] /\ it_outer it1 = []).
+    { unfold it1. destruct (it_started it); [now apply HQ|now apply start_blank]. }
+    destruct Hq as [-> ->]. cbn [scan_all walk_all fst snd app]. split; [discriminate|]. intros _. split; reflexivity.
 Qed.
 
 Lemma Forall_set_nth {A} (P : A -> Prop) n x l : Forall P l -> P x -> Forall P (set_nth n x l).
@@ -184,8 +226,8 @@ Proof.
       (constructor; [discriminate|apply IH; auto; now apply Forall_set_nth]).
   - destruct (nth_error its i) as [it|] eqn:E; [|constructor; auto].
     assert (HQi : Quiet m it) by (rewrite Forall_forall in HQ; apply HQ; eapply nth_error_In; eauto).
-    destruct (drain_no_raise (drain_fuel m (if it_started it then it else it_start m it)) m it [] HB HQi) as [H1 H2].
-    destruct (it_drain _ m it []) as [[ys st] it']. cbn [fst snd] in *.
+    destruct (drain_no_raise m it HB HQi) as [H1 H2].
+    destruct (it_drain m it) as [[ys st] it']. cbn [fst snd] in *.
     constructor; [exact H1|apply IH; auto; now apply Forall_set_nth].
 Qed.
 
@@ -438,21 +480,42 @@ Lemma Forall2_map_r {A B} (R : A -> B -> Prop) (f : B -> B) l m :
 Proof. intros Hf H. induction H; simpl; constructor; auto. Qed.
 
 (* list(it) *)
-Lemma drain_sound fuel : forall m S it c p W acc,
+Lemma drain_sound m S it c p W :
   MemInv m -> HoldsRel m S -> ItRel it (c, p, W) -> WOK S (c, p, W) ->
-  (forall t, In t acc -> matches p t = true /\ In t W) ->
-  let r := it_drain fuel m it acc in
-  ItRel (snd r) (c, p, W) /\ snd (fst r) <> 2%N
+  let r := it_drain m it in
+  ItRel (snd r) (c, p, W) /\ (snd (fst r) = 1%N)
   /\ forall t, In t (fst (fst r)) -> matches p t = true /\ In t W.
 Proof.
-  induction fuel as [|f IH]; intros m S it c p W acc Hi HR HRel HW Hacc; cbn [it_drain].
-  - cbn. split; [auto|split; [discriminate|auto]].
-  - destruct (next_sound m S it c p W Hi HR HRel HW) as (N1 & N2 & N3).
-    destruct (it_next m it) as [[t| |] it']; cbn [fst snd] in *.
-    + apply (IH m S); auto. intros u Hu. apply in_app_iff in Hu. destruct Hu as [Hu|[<-|[]]]; auto.
-      destruct (N3 t eq_refl) as (A & B & _). auto.
-    + split; [auto|split; [discriminate|auto]].
-    + congruence.
+  intros Hi HR HRel HW. unfold it_drain.
+  destruct (it_done it) eqn:Edone; [cbn; split; [exact HRel|split; [reflexivity|intros t []]]|].
+  set (it1 := if it_started it then it else it_start m it).
+  assert (H1 : ItRel it1 (c, p, W) /\ it_started it1 = true /\ it_done it1 = false).
+  { unfold it1. destruct (it_started it) eqn:Es; [auto|].
+    destruct HRel as (Hc & Hp & _). now apply (start_ok m S). }
+  destruct H1 as ((Hc & Hp & Hok & Hwin) & Hs1 & Hd1).
+  destruct (Hok Hs1 Hd1) as [Hk Hm]. specialize (Hwin Hs1 Hd1).
+  assert (Hholds : forall t, has_ctx_live m t c = Some true -> In t W).
+  { intros t Ht. pose proof (live_holds m t c Hi Ht) as Hh. apply HW, q_mem_In. now rewrite <- HR. }
+  rewrite Hc in *.
+  destruct (scan_all_spec m c (it_check it1) (it_inner it1)) as [S1 S2].
+  destruct (walk_all_spec m c (it_kind it1) (it_check it1) (it_outer it1)) as [W1 W2].
+  specialize (S2 (fun t => live_total m t c Hi)). specialize (W2 (fun t => live_total m t c Hi)).
+  destruct (scan_all m c (it_check it1) (it_inner it1)) as [ys e]. cbn [fst snd] in *. subst e.
+  destruct (walk_all m c (it_kind it1) (it_check it1) (it_outer it1)) as [zs e']. cbn [fst snd] in *. subst e'.
+  split; [|split; [reflexivity|]].
+  - split; [exact Hc|split; [exact Hp|split]].
+    + unfold ItOK, it_set. cbn [it_started it_done]. discriminate.
+    + unfold ItWin, it_set. cbn [it_started it_done]. discriminate.
+  - intros t Ht. apply in_app_iff in Ht. destruct (it_check it1) eqn:Echk.
+    + rewrite <- Hp. destruct Ht as [Ht|Ht].
+      * destruct (S1 t Ht) as [Hin Hl]. split; [|apply Hholds; auto].
+        specialize (Hm eq_refl). rewrite Forall_forall in Hm. auto.
+      * destruct (W1 t Ht) as (x & Hin & Hl). split; [|apply Hholds; auto]. eapply expand_matches; eauto.
+    + destruct Ht as [Ht|Ht].
+      * destruct (S1 t Ht) as [Hin _]. specialize (Hwin eq_refl). rewrite Forall_forall in Hwin. split; auto.
+        rewrite Hp in Hk. destruct p as [[[s|] [pr|]] [o|]]; simpl in Hk; destruct Hk as [Hk _]; try discriminate.
+        destruct t as [[x y] z]. reflexivity.
+      * destruct (W1 t Ht) as (x & Hin & _). rewrite (expand_unchecked m _ _ x Hk) in Hin. destruct Hin.
 Qed.
 
 (* Every schedule of mutations, opens, next() and list() on the default store:
@@ -491,12 +554,11 @@ Proof.
     destruct (nth_error its i) as [it|] eqn:E.
     + destruct Hn as ([[c p] W] & Hx & HRel). rewrite Hx.
       assert (HWx : WOK S (c, p, W)) by (rewrite Forall_forall in HW; apply HW; eapply nth_error_In; eauto).
-      destruct (drain_sound (drain_fuel m (if it_started it then it else it_start m it)) m S it c p W []
-                            Hi HR HRel HWx) as (D1 & D2 & D3); [intros t []|].
-      destruct (it_drain _ m it []) as [[ys st] it']. cbn [fst snd] in *.
+      destruct (drain_sound m S it c p W Hi HR HRel HWx) as (D1 & D2 & D3).
+      destruct (it_drain m it) as [[ys st] it']. cbn [fst snd] in *.
       cbn [ispec_run ob_st ob_ys fst snd]. rewrite IH; auto; [|eapply Forall2_set_nth; eauto].
       rewrite andb_true_r. apply andb_true_iff. split.
-      * apply negb_true_iff. now apply N.eqb_neq.
+      * rewrite D2. reflexivity.
       * apply yields_ok_reading. exact D3.
     + rewrite Hn. apply IH; auto.
 Qed.
@@ -648,3 +710,49 @@ Proof.
     + exists [], mid. split; auto. rewrite Hst. now apply sp_content_In.
     + exists m1, m2. split; auto. now rewrite Hst.
 Qed.
+
+(* ================================================================== *)
+(* Iterating a graph of the Memory store while the store is mutated: the values
+   of the loop variable are the list computed up front.  This is the fact behind
+   the models [g_iadd]/[g_isub]/[g_bin] (Model.v), which consume
+   [g_triples w h all_pat]: `for t in other` over a Memory-backed graph walks a
+   copy of the graph's triple set taken at the first next(), with no per-triple
+   test, so adds and removals made between the steps cannot change what it yields. *)
+Fixpoint drive (ms : list mem) (it : iter) : list triple :=
+  match ms with
+  | [] => []
+  | m :: r => match it_next m it with
+              | (NYield t, it') => t :: drive r it'
+              | _ => []
+              end
+  end.
+
+Lemma drive_wild : forall ms it,
+  it_started it = true -> it_done it = false -> it_check it = false ->
+  length ms = length (it_inner it) -> drive ms it = it_inner it.
+Proof.
+  induction ms as [|m r IH]; intros it Hs Hd Hc Hl.
+  - destruct (it_inner it); [reflexivity|discriminate].
+  - destruct (it_inner it) as [|t rest] eqn:Ei; [discriminate|].
+    cbn [drive]. unfold it_next. rewrite Hd, Hs, Ei, Hc. cbn [it_scan]. f_equal.
+    apply IH; auto; cbn; simpl in Hl; lia.
+Qed.
+
+(* the states after the first are arbitrary: whatever the loop body did to the store *)
+Theorem memory_iteration_is_snapshot m0 c ms :
+  length (m0 :: ms) = length (mem_triples m0 c all_pat) ->
+  drive (m0 :: ms) (it_open c all_pat) = mem_triples m0 c all_pat.
+Proof.
+  intros Hl. cbn [drive]. unfold it_next. cbn [it_open it_done it_started].
+  change (it_start m0 (it_open c all_pat)) with
+    {| it_cid := c; it_pat := all_pat; it_started := true; it_done := false; it_check := false;
+       it_kind := KFlat; it_outer := []; it_inner := mem_triples m0 c all_pat |}.
+  cbn [it_cid it_check it_inner it_outer].
+  destruct (mem_triples m0 c all_pat) as [|t rest] eqn:E; [discriminate|].
+  cbn [it_scan]. f_equal. rewrite drive_wild; auto; simpl in Hl; cbn; lia.
+Qed.
+
+(* list(it) always ends with StopIteration: by construction there is no third outcome *)
+Lemma drain_exhausts m S it c p W :
+  MemInv m -> HoldsRel m S -> ItRel it (c, p, W) -> WOK S (c, p, W) -> snd (fst (it_drain m it)) = 1%N.
+Proof. intros Hi HR HRel HW. now destruct (drain_sound m S it c p W Hi HR HRel HW) as (_ & H & _). Qed.
